@@ -251,6 +251,10 @@ func (k c10) random(c *rt.Ctx) {
 			return n
 		}
 		k.judgeField(c, mk(gen.Call("json", gen.Value())), c10JSONStore(), "json", "rowdep")
+		// len counts the elements of any list value, JSON arrays included
+		k.judgeField(c, gen.Call("len", gen.IndexS(gen.Call("json", gen.Value()), "list")), c10JSONStore()[1:2], "len", "rowdep")
+		k.judgeField(c, gen.Call("len", gen.IndexS(gen.Call("json", gen.Value()), "list")), c10JSONStore()[3:6], "len", "rowdep")
+		k.judgeField(c, gen.Call("len", gen.IndexS(gen.IndexS(gen.Call("json", gen.Str(c10JSON[2])), "o"), "z")), []refstore.Pair{{K: "a", V: "b"}}, "len", "const")
 		doc := c10JSON[r.Intn(len(c10JSON))]
 		k.judgeField(c, mk(gen.Call("json", gen.Str(doc))), []refstore.Pair{{K: "a", V: "b"}, {K: "c", V: "d"}}, "json", "const")
 	case 5: // numbers through str / strlen / float / int
